@@ -581,4 +581,13 @@ def main():
 
 
 if __name__ == "__main__":
-    sys.exit(main())
+    try:
+        rc = main()
+    except SystemExit:
+        raise
+    except BaseException as e:  # an internal error of the machinery is never a verdict
+        import traceback
+        traceback.print_exc()
+        print(f"INCONCLUSIVE internal error: {e!r}")
+        rc = 2
+    sys.exit(rc)
